@@ -73,10 +73,10 @@ Record nbcase := {
 
 Record kstep := { ks_X : list (list float); ks_centroids : list (list float); ks_counts : list float;
                   ks_inertia : float; ks_ok : bool }.
-Record kcase := { kc_f32 : bool; kc_metric : metric; kc_tol : float; kc_init : list (list float);
+Record kcase := { kc_f32 : bool; kc_initF : bool (* Precomputed centroids in column-major order *); kc_metric : metric; kc_tol : float; kc_init : list (list float);
                   kc_steps : list kstep }.
 
-Record fstep := { fs_X : list (list float); fs_y : list bool; fs_p : list float;
+Record fstep := { fs_contig : bool (* the columns of the record matrix are contiguous views *); fs_X : list (list float); fs_y : list bool; fs_p : list float;
                   fs_z : list float; fs_n : list float; fs_w : list float }.
 Record fcase := { fc_f32 : bool; fc_alpha : float; fc_beta : float; fc_l1 : float; fc_l2 : float; fc_d : N;
                   fc_z0 : list float; fc_n0 : list float; fc_w0 : list float; fc_steps : list fstep }.
@@ -280,18 +280,18 @@ Definition kstate_eqb (s : kstate (F := T) * bool) (k : kstep) : bool :=
   && x_eq X (k_inertia (fst s)) (cv (ks_inertia k)) && Bool.eqb (snd s) (ks_ok k).
 
 (* corr bit 8: some step of the history differs from the model run on the same history *)
-Fixpoint km_corr_go (m : metric) (tol : T) (st : kstate) (steps : list kstep) : bool :=
+Fixpoint km_corr_go (cm : bool) (m : metric) (tol : T) (st : kstate) (steps : list kstep) : bool :=
   match steps with
   | [] => true
-  | k :: r => let s := km_fit_with okm m tol st (cvm (ks_X k)) in kstate_eqb s k && km_corr_go m tol (fst s) r
+  | k :: r => let s := km_fit_with_lay okm cm m tol st (cvm (ks_X k)) in kstate_eqb s k && km_corr_go cm m tol (fst s) r
   end.
 Definition km_corr (c : kcase) : N :=
-  flag (km_corr_go (kc_metric c) (cv (kc_tol c)) (k_init okm (cvm (kc_init c))) (kc_steps c)) 8.
+  flag (km_corr_go (kc_initF c) (kc_metric c) (cv (kc_tol c)) (k_init okm (cvm (kc_init c))) (kc_steps c)) 8.
 
 (* oracle bits (k-means): 128 counts not cumulative, 256 centroid is not the running mean of the points
    assigned so far / untouched centroid moved, 512 converged flag untruthful, 1024 inertia is not the mean
    distance of the batch, 2048 shape / non-finite *)
-Fixpoint km_oracle_go (m : metric) (tol : float) (init prev : list (list float)) (pcnt : list float)
+Fixpoint km_oracle_go (cm : bool) (m : metric) (tol : float) (init prev : list (list float)) (pcnt : list float)
          (log : list (nat * list float)) (M : Q) (emin : Z) (steps : list kstep) : N :=
   match steps with
   | [] => 0%N
@@ -315,15 +315,16 @@ Fixpoint km_oracle_go (m : metric) (tol : float) (init prev : list (list float))
                        | _ => forallb (fun j => Qclose (x_tsc X * tol40 * M) (nth j cen nan) (mean_q emin (Zcol emin j pts)))
                                       (seq 0 d)
                        end) (seq 0 kk) in
-      let flag_ok := Bool.eqb (ks_ok k) (ltb o (dist okm m (concat (cvm prev)) (concat (cvm (ks_centroids k)))) (cv tol)) in
+      let flag_ok := Bool.eqb (ks_ok k) (ltb o (dist okm m (flat okm cm (cvm prev)) (flat okm cm (cvm (ks_centroids k)))) (cv tol)) in
       let inertia_ok := x_eq X (cv (ks_inertia k))
                           (div o (usum o (map snd a)) (of_N o (N.of_nat (length (ks_X k))))) in
       N.lor (flag shape 2048 + flag cum 128 + flag mean_ok 256 + flag flag_ok 512 + flag inertia_ok 1024)%N
-            (km_oracle_go m tol init (ks_centroids k) (ks_counts k) log' M emin r)
+            (km_oracle_go cm m tol init (ks_centroids k) (ks_counts k) log' M emin r)
   end.
 Definition km_oracle (c : kcase) : N :=
-  let M := Qmaxl [absmax (kc_init c); absmax (concat (map ks_X (kc_steps c))); 1%Q] in
-  km_oracle_go (kc_metric c) (kc_tol c) (kc_init c) (kc_init c) (map (fun _ => 0%float) (kc_init c)) [] M
+  (* the data scale, no absolute floor: the tolerance of the running-mean check is relative at every magnitude *)
+  let M := Qmaxl [absmax (kc_init c); absmax (concat (map ks_X (kc_steps c)))] in
+  km_oracle_go (kc_initF c) (kc_metric c) (kc_tol c) (kc_init c) (kc_init c) (map (fun _ => 0%float) (kc_init c)) [] M
                (emin_of (concat (concat (map ks_X (kc_steps c))))) (kc_steps c).
 
 (** ** FTRL *)
@@ -335,7 +336,7 @@ Fixpoint ftrl_corr_go (p : fparams) (d : nat) (st : list T * list T) (steps : li
   match steps with
   | [] => 0%N
   | s :: r =>
-      let st' := ftrl_update o p d st (cvm (fs_X s), fs_y s, cvl (fs_p s)) in
+      let st' := ftrl_update_lay o p d st (fs_contig s, cvm (fs_X s), fs_y s, cvl (fs_p s)) in
       N.lor (flag (vec_eqb (fst st') (cvl (fs_z s)) && vec_eqb (snd st') (cvl (fs_n s))) 16
              + flag (vec_eqb (ftrl_weights o p (cvl (fs_z s)) (cvl (fs_n s))) (cvl (fs_w s))) 32)%N
             (ftrl_corr_go p d st' r)
@@ -350,14 +351,25 @@ End Generic.
     oracle bits (FTRL): 4096 a weight is zero although |z| > l1, or non-zero although |z| <= l1;
     8192 n' is not n + g^2; 16384 z' is not z + g - sigma w (g recomputed exactly from the batch);
     32768 shape / non-finite state; 16777216 a non-zero weight is not the proximal closed form *)
-Definition zero_iff (l1 : float) (z w : float) : bool :=
-  Bool.eqb (PrimFloat.eqb w 0) (PrimFloat.leb (fabs z) l1).
+(* [tiny] = half the smallest subnormal of the element type (2^-1075, 2^-150): a quotient below it rounds to zero.
+   The only IEEE constants of the oracle; they matter for |z| - l1 around 1e-300 only. *)
+Definition ftrl_den (c : fcase) (n : float) : Q :=
+  ((f64_Q (PrimFloat.sqrt n) + f64_Q (fc_beta c)) / f64_Q (fc_alpha c) + f64_Q (fc_l2 c))%Q.
+Definition zero_iff (tiny : Q) (c : fcase) (z n w : float) : bool :=
+  let l1 := fc_l1 c in
+  if PrimFloat.leb (fabs z) l1 then PrimFloat.eqb w 0
+  else negb (PrimFloat.eqb w 0)
+       || (* underflow: the exact closed form is below half the smallest subnormal *)
+          (f64_finite z && f64_finite n &&
+           Qle_bool (Qabs' ((if PrimFloat.ltb z 0 then (-1)%Q else 1%Q) * f64_Q l1 - f64_Q z)) (tiny * ftrl_den c n)).
+Definition zero_iff_all (tiny : Q) (c : fcase) (z n w : list float) : bool :=
+  forallb (fun t => let '(zj, nj, wj) := t in zero_iff tiny c zj nj wj) (zip3 z n w).
 (* a non-zero weight is the documented closed form (sgn z * l1 - z) / ((sqrt n + beta) / alpha + l2):
    w * denominator is compared with the numerator over Q (the square root is the correctly rounded float one).
    Where the denominator is exactly zero (beta = 0, l2 = 0, n = 0: finding F-C15-2) the IEEE value of the closed
    form is the infinity of the numerator's sign, and that is what is demanded - the state it leads to is
    rejected by bit 32768. *)
-Definition prox_ok (tsc : Q) (l1 beta alpha l2 : float) (z n w : float) : bool :=
+Definition prox_ok (tsc tiny : Q) (l1 beta alpha l2 : float) (z n w : float) : bool :=
   if negb (f64_finite z) then true        (* a non-finite state is reported by bit 32768 *)
   else if PrimFloat.leb (fabs z) l1 then PrimFloat.eqb w 0
   else
@@ -366,9 +378,9 @@ Definition prox_ok (tsc : Q) (l1 beta alpha l2 : float) (z n w : float) : bool :
     if Qeq_bool den 0 then f64_biteq w (if PrimFloat.ltb z 0 then infinity else neg_infinity)
     else
       f64_finite w &&
-      Qle_bool (Qabs' (f64_Q w * den - (s * f64_Q l1 - f64_Q z))) (tsc * tol32 * (1 + Qabs' (f64_Q z) + f64_Q l1)).
-Definition prox_all (tsc : Q) (c : fcase) (z n w : list float) : bool :=
-  forallb (fun t => let '(zj, nj, wj) := t in prox_ok tsc (fc_l1 c) (fc_beta c) (fc_alpha c) (fc_l2 c) zj nj wj) (zip3 z n w).
+      Qle_bool (Qabs' (f64_Q w * den - (s * f64_Q l1 - f64_Q z))) (tsc * tol32 * (Qabs' (f64_Q z) + f64_Q l1) + tiny * den).
+Definition prox_all (tsc tiny : Q) (c : fcase) (z n w : list float) : bool :=
+  forallb (fun t => let '(zj, nj, wj) := t in prox_ok tsc tiny (fc_l1 c) (fc_beta c) (fc_alpha c) (fc_l2 c) zj nj wj) (zip3 z n w).
 
 Definition Qgrad (j : nat) (s : fstep) : Q :=
   let ep := emin_of (fs_p s) in
@@ -377,7 +389,16 @@ Definition Qgrad (j : nat) (s : fstep) : Q :=
   inject_Z (Zsum (map (fun t => let '(r, y, p) := t in
                                 ((toZ ep p - (if y : bool then one_p else 0)) * toZ ex (nth j r 0%float))%Z)
                       (zip3 (fs_X s) (fs_y s) (fs_p s)))) * Qpow2 (ep + ex).
-Fixpoint ftrl_oracle_go (tsc : Q) (c : fcase) (z n w : list float) (steps : list fstep) : N :=
+(* sum of the magnitudes of the gradient's terms: the floating-point gradient is within a few ulps of THIS (not of
+   the possibly cancelled exact gradient) *)
+Definition QgradAbs (j : nat) (s : fstep) : Q :=
+  let ep := emin_of (fs_p s) in
+  let ex := emin_of (concat (fs_X s)) in
+  let one_p := Z.shiftl 1 (- ep) in
+  inject_Z (Zsum (map (fun t => let '(r, y, p) := t in
+                                Z.abs ((toZ ep p - (if y : bool then one_p else 0)) * toZ ex (nth j r 0%float))%Z)
+                      (zip3 (fs_X s) (fs_y s) (fs_p s)))) * Qpow2 (ep + ex).
+Fixpoint ftrl_oracle_go (tsc tiny : Q) (c : fcase) (z n w : list float) (steps : list fstep) : N :=
   match steps with
   | [] => 0%N
   | s :: r =>
@@ -385,13 +406,16 @@ Fixpoint ftrl_oracle_go (tsc : Q) (c : fcase) (z n w : list float) (steps : list
       let js := seq 0 d in
       let shape := Nat.eqb (length (fs_z s)) d && Nat.eqb (length (fs_n s)) d && Nat.eqb (length (fs_w s)) d
                    && forallb f64_finite (fs_z s) && forallb f64_finite (fs_n s) in
-      let wz := forallb (fun zw => zero_iff (fc_l1 c) (fst zw) (snd zw)) (combine (fs_z s) (fs_w s)) in
+      let wz := zero_iff_all tiny c (fs_z s) (fs_n s) (fs_w s) in
       let nq := forallb (fun j => let g := Qgrad j s in
+                                  let ga := QgradAbs j s in
                                   f64_finite (nth j (fs_n s) nan) &&
                                   Qle_bool (Qabs' (f64_Q (nth j (fs_n s) nan) - (f64_Q (nth j n nan) + g * g)))
-                                           (tsc * tol32 * (1 + f64_Q (nth j n nan) + g * g))) js in
+                                           (* + gradual underflow of g*g and of the terms of g *)
+                                           (tsc * tol32 * (f64_Q (nth j n nan) + ga * ga) + 4 * tiny)) js in
       let zq := forallb (fun j =>
                   let g := Qgrad j s in
+                  let ga := QgradAbs j s in
                   let nj := nth j n nan in
                   let zj := nth j z nan in
                   let wj := nth j w nan in
@@ -401,15 +425,20 @@ Fixpoint ftrl_oracle_go (tsc : Q) (c : fcase) (z n w : list float) (steps : list
                   let expect := (f64_Q zj + g - f64_Q sg * f64_Q wj)%Q in
                   f64_finite sg && f64_finite wj && f64_finite zj && f64_finite (nth j (fs_z s) nan) &&
                   Qle_bool (Qabs' (f64_Q (nth j (fs_z s) nan) - expect))
-                           (tsc * tol32 * (1 + Qabs' (f64_Q zj) + Qabs' g + Qabs' (f64_Q sg * f64_Q wj)))) js in
+                           (* relative to the terms and to the cancellation inside sigma: sqrt(n')/alpha * |w| *)
+                           (tsc * tol32 * (Qabs' (f64_Q zj) + ga
+                                           + Qabs' (f64_Q (PrimFloat.div (PrimFloat.sqrt (nth j (fs_n s) nan)) (fc_alpha c))
+                                                    * f64_Q wj))
+                            (* gradual underflow of the terms of g and of sigma * w *)
+                            + inject_Z (Z.of_nat (length (fs_X s)) + 4) * tiny)) js in
       N.lor (flag shape 32768 + flag wz 4096 + flag nq 8192 + flag zq 16384
-             + flag (prox_all tsc c (fs_z s) (fs_n s) (fs_w s)) 16777216)%N
-            (ftrl_oracle_go tsc c (fs_z s) (fs_n s) (fs_w s) r)
+             + flag (prox_all tsc tiny c (fs_z s) (fs_n s) (fs_w s)) 16777216)%N
+            (ftrl_oracle_go tsc tiny c (fs_z s) (fs_n s) (fs_w s) r)
   end.
-Definition ftrl_oracle (tsc : Q) (c : fcase) : N :=
-  N.lor (flag (forallb (fun zw => zero_iff (fc_l1 c) (fst zw) (snd zw)) (combine (fc_z0 c) (fc_w0 c))) 4096
-         + flag (prox_all tsc c (fc_z0 c) (fc_n0 c) (fc_w0 c)) 16777216)%N
-        (ftrl_oracle_go tsc c (fc_z0 c) (fc_n0 c) (fc_w0 c) (fc_steps c)).
+Definition ftrl_oracle (tsc tiny : Q) (c : fcase) : N :=
+  N.lor (flag (zero_iff_all tiny c (fc_z0 c) (fc_n0 c) (fc_w0 c)) 4096
+         + flag (prox_all tsc tiny c (fc_z0 c) (fc_n0 c) (fc_w0 c)) 16777216)%N
+        (ftrl_oracle_go tsc tiny c (fc_z0 c) (fc_n0 c) (fc_w0 c) (fc_steps c)).
 
 (** * cases *)
 Inductive body := NB (c : nbcase) | KM (c : kcase) | FT (c : fcase).
@@ -420,7 +449,7 @@ Definition run_case (c : case) : verdict :=
    match c_body c with
    | NB b => if n_f32 b then (nb_corr x32 b, nb_oracle x32 b) else (nb_corr x64 b, nb_oracle x64 b)
    | KM b => if kc_f32 b then (km_corr x32 b, km_oracle x32 b) else (km_corr x64 b, km_oracle x64 b)
-   | FT b => if fc_f32 b then (ftrl_corr x32 b, ftrl_oracle (x_tsc x32) b)
-             else (ftrl_corr x64 b, ftrl_oracle (x_tsc x64) b)
+   | FT b => if fc_f32 b then (ftrl_corr x32 b, ftrl_oracle (x_tsc x32) (Qpow2 (-150)) b)
+             else (ftrl_corr x64 b, ftrl_oracle (x_tsc x64) (Qpow2 (-1075)) b)
    end).
 Definition run_cases (cs : list case) : list N := report (map run_case cs).
